@@ -1291,7 +1291,7 @@ static void self_check(void)
 int main(int argc, char **argv)
 {
         mc_init(argc, argv, "C13");
-        mc_set_budget(100, 1200);
+        mc_set_budget(300, 1200);
         mc_meta("level", "model_checking");
         mc_meta("technique", "explicit-state BFS over reception histories on the real vbi_decode() with an event-log oracle (reference model of transmitted values, repeat counts, identified station, announced aspect and learned rolling Teletext header), plus exhaustive value sweeps on fresh decoders and a sweep over all ordered pairs of decodable WSS classes on one decoder");
         mc_meta("rule", "a history is a sequence of receptions (VPS line, 8/30 format 1 / format 2 packet, WSS 625 line, XDS channel-information packet on line 284, a corrupted copy, a rejected copy, a Teletext page, a rolling Teletext page whose header carries the text of station A or B and its page number, an empty frame); every history within the depth is replayed on a fresh decoder with all five event types logged per reception and audited; states are canonical (vbi_network, cycle, vps_pid, WSS last/rep, aspect, chswcd, which of the pages 201/100/101/200 are cached, rolling header learned by the decoder, reference model); a history is non-trivial when at least one event was raised; sweeps: every CNI of each carrier twice, every WSS word five times, every PIL, each on the real decoder with the announcement demanded; WSS transitions: for every ordered pair (a, b) of the 64 decodable classes (format, film bit, open subtitles) word a four times then word b four times on one decoder, b with each of 10 patterns of the undecoded bits: ASPECT demanded iff the decoded aspect differs from the one announced last, with exactly the transmitted values");
